@@ -28,6 +28,7 @@ type Val struct {
 	Fn    *ssa.Function
 	Dyn   types.Type // statically known dynamic type of an interface value
 	Cancel bool      // a context.CancelFunc created by the verified code
+	From   string    // "Type.field" the value was loaded from (selects field-level callback declarations)
 	Guard  string    // mutex that guards the object this value was loaded from (guarded_by)
 	FreshFrom string // deep-fresh message: everything reachable from it was allocated at or after this allocation mark
 }
@@ -148,6 +149,8 @@ type FnCtx struct {
 	guardSub   map[string]*guardInfo // sub-objects whose fields are guarded by the owner's mutex
 	writeOnce  map[string]bool       // cell refs of captured variables with a single (initialising) store
 	constCell  map[string]Val        // captured variables that are written exactly once (at their declaration): cell ref -> value
+	freshMsgs  map[string]string     // protoreflect messages made by New(): term -> fresh message ref
+	trackArgT  map[string]types.Type // types of tracked call arguments (ghost$arg$Name$k)
 	intUB      map[string]int    // small static upper bounds of integer terms (lengths of such slices after phi merges)
 	grafts     []string          // objects into which a message/list pointer was stored (deep-freshness of newer clones is void for them)
 }
@@ -1268,6 +1271,12 @@ func (c *FnCtx) callMods(fr *Frame, call *ssa.CallCommon, m *modSet, depth int) 
 		}
 	}
 	if callee != nil {
+		if c.isTracked(callee) {
+			m.comps["ghost$calls$"+callee.Name()] = true
+			for k := range call.Args {
+				m.comps[fmt.Sprintf("ghost$arg$%s$%d", callee.Name(), k)] = true
+			}
+		}
 		c.funcMods(callee, m, depth)
 		return
 	}
@@ -1280,13 +1289,70 @@ func (c *FnCtx) callMods(fr *Frame, call *ssa.CallCommon, m *modSet, depth int) 
 			m.union(mm)
 			return
 		}
-	} else if cb := c.eng.callbackSpec(call.Value.Type()); cb != nil {
+	} else if cb := c.eng.callbackSpec(call.Value.Type()); cb != nil || c.fieldCallback(call.Value) != nil {
+		if cb == nil {
+			cb = c.fieldCallback(call.Value)
+		}
 		m.union(c.eng.patternMods(c, cb.Modifies))
 		m.alloc = true
+		if len(cb.Writes) > 0 {
+			m.comps[msgComp] = true
+		}
+		if cb.Closed {
+			// the call is dispatched over the module's own closures of this type: whatever they write may be written
+			for _, f := range c.eng.closureCandidates(call.Value.Type()) {
+				c.funcMods(f, m, depth+1)
+			}
+		}
 		c.cbGhostMods(m)
 		return
 	}
 	m.all = true
+}
+
+func (c *FnCtx) isTracked(fn *ssa.Function) bool {
+	if c.spec == nil {
+		return false
+	}
+	for _, t := range c.spec.Track {
+		if t == fn.Name() {
+			return true
+		}
+	}
+	return false
+}
+
+// trackCall: ghost log of calls to the callees the contract tracks (`track Send`): count and latest arguments.
+func (c *FnCtx) trackCall(st *State, fn *ssa.Function, args []Val) {
+	cnt := c.comp("ghost$calls$"+fn.Name(), "Int")
+	c.heapSet(st, cnt, "(+ "+c.heapGet(st, cnt)+" 1)")
+	for k, a := range args {
+		if a.E == "" {
+			continue
+		}
+		name := fmt.Sprintf("ghost$arg$%s$%d", fn.Name(), k)
+		c.comp(name, c.ty.SortOf(a.T), a.T)
+		c.trackArgT[name] = a.T
+		st.heap[name] = c.sc.Define(name, c.ty.SortOf(a.T), a.E)
+	}
+}
+
+// fieldCallback: callback declaration for a function value read from a struct field (syntactic, for mod-sets).
+func (c *FnCtx) fieldCallback(v ssa.Value) *CallbackSpec {
+	switch x := v.(type) {
+	case *ssa.Field:
+		if n, ok := x.X.Type().(*types.Named); ok {
+			return c.eng.callbackSpecFor(nil, n.Obj().Name()+"."+x.X.Type().Underlying().(*types.Struct).Field(x.Field).Name())
+		}
+	case *ssa.UnOp:
+		if fa, ok := x.X.(*ssa.FieldAddr); ok {
+			pt := fa.X.Type().Underlying().(*types.Pointer).Elem()
+			if n, ok := pt.(*types.Named); ok {
+				return c.eng.callbackSpecFor(nil, n.Obj().Name()+"."+pt.Underlying().(*types.Struct).Field(fa.Field).Name())
+			}
+		}
+	}
+	return nil
 }
 
 // cbGhostMods: the ghost call log is written by every callback invocation.
